@@ -39,8 +39,8 @@ var c08ReadOnly = []string{
 
 func checkC08(c *Ctx) {
 	r, p := c.R, c.P
-	r.Explanation = "Decides structural necessary conditions of C08. (B1) pooled-buffer escape — in the whole module no value that may share memory with a buffer obtained from a sync.Pool (BufPool, the byte-slice pool) is stored into a field/global/heap object, sent on a channel or handed to a goroutine, and none is returned by a function that also gives the buffer back to the pool (a summary-based alias analysis over go/ssa follows slices, cells, helper calls in both directions — the Get and the Put may each live in a helper, a deferred closure or a deferred named function —, callbacks passed as function-typed parameters (also forwarded, kept in locals or captured variables), release functions returned by a borrow helper and called or deferred by its caller, methods of a module interface with a single implementation, and the modelled library calls). A function literal that stores memory derived from its own parameter into a captured variable is an escape for whoever calls it; fields of a non-escaping local struct variable are value flow, not escapes. A call that receives pooled memory and is neither modelled nor followed gives UNDECIDED. A function that obtains a buffer and returns it without ever giving it back hands it over: its callers are judged as holders. Writing into the buffer and passing it to io.Writer.Write / AEAD Seal/Open is allowed by their no-retain contracts. (B2) package-level state inventory — every package-level variable of the module is (a) never stored to and never written through (elements, map entries, appends, in-place library writes, also through same-module helpers that receive it) outside package initialisation, or (b) a sync.Pool used only through Get/Put (also through helpers that receive its address), or (c) a synchronisation object, or (d) mutated after initialisation but then every access (load, look-up, iteration, update, hand-over to a call) happens while one package-level sync.Mutex/RWMutex of the same package is held (write mode for writes); the guard is inferred, not named: some lock of the package must cover all accesses. The lock held at an access is the must-hold lockset of the lockset engine plus the locks held around the invocation of a callback: a function value whose every use is to be passed to a same-module wrapper runs under the locks the wrapper holds when it calls it (also when the wrapper forwards it to another runner), including a lock the wrapper received as a parameter (*sync.Mutex, *sync.RWMutex, sync.Locker; resolved per call site, RLocker() = read mode); a callback started with go holds nothing. A variable assigned inside a sync.Once.Do callback is accepted when every other access is provably after Do on that Once (else UNDECIDED); further writers still need the lock. A package-level struct that is the only object of its module type is treated field by field the same way (its own mutex fields are candidate guards). The guarded registries found this way are additionally required to be read and updated in one critical section per operation. (B3) byteslicepool.Get hands out only fresh memory or recycled memory that was zeroed over its whole length on every path (must-dataflow; clear(), up/down counted loops in any lowering, zeroing helpers; the recycled value may come from a helper), and Put stores the caller's slice without cutting its length. (B1-release-once) in every function the same pooled object (identified through conversions, single-assignment locals, captured variables, hand-over helpers) is given back at most once on every path: direct Put, deferred Put, Put helpers, deferred function literals and returned release functions all count; VIOLATION when an unconditional release is certain to be followed by another one (a deferred release registered before it, or a dominating earlier release), UNDECIDED when two releases merely may lie on one path. (B2, references) the map/slice/pointer loaded from a guarded variable is followed through results, arguments (also into the targets of function values it is passed to), local and captured variables of same-package functions: every use of the reference anywhere is an access that needs the guard; returning it from an exported function is a violation. (B4) the exported entry points of crypto, crypto/aeskw, crypto/padding, crypto/aescbcaead never write memory reachable from their []byte inputs (elements or spare capacity; the taint engine's write summaries; dst of cipher.AEAD Seal/Open exempt by contract): two calls on separate messages/keys that live in one backing array, or share a key slice, would otherwise change each other's results. (B5) in packages that use a sync.Pool, an exported function that returns a value gives none of its parameters' memory to a pool (directly or through helpers; release summaries of the alias analysis): only a pure release operation — no results, like ByteSlicePool.Put — takes ownership of caller memory; otherwise the caller, who still owns what it passed in, and the pool's next user share it. (B6) process-wide objects of libraries — package-level variables of other packages, logrus.StandardLogger(), log.Default(), slog.Default() — are not written or reconfigured outside package initialisation: no assignment to such a variable or to a field of such an object, no package-level setter of the library's singleton (logrus.SetOutput…, log.SetOutput…, slog.SetDefault), no Set*/Add*/Replace*/Register*/Reset* method on the object or on a library object built on it, also when it was first stored in a field of a module struct (field-based) and is reached through that field later. NOT decided: data-race freedom in general, 'same results when run concurrently' (needs execution), use of a pooled buffer after an early (non-deferred) Put inside the same function; per-object state is covered by C13/C14."
-	r.Assumptions = append(r.Assumptions, "library model table of kitcheck/taint.go; interface calls into the module are covered by the io.Writer / cipher.AEAD contract models", "method calls on package-level objects of library types (loggers, parsers with value receivers) do not mutate shared state", "a package-level variable assigned inside a sync.Once.Do callback is accepted only if every other access is dominated by Do on the same Once (directly, through a same-module function that calls Do on every path, or at every call site of the accessing function); otherwise UNDECIDED", "identities are type-based: a lock is its package-level variable or (type, field); a pool is its variable or (type, field), looked through single-assignment locals", "a module interface with exactly one implementing module type dispatches to that type", "B6: the table of singleton accessors / package-level setters in prop_c08.go and the reading of library methods named Set*/Add*/Replace*/Register*/Reset* as reconfiguring their receiver")
+	r.Explanation = "Decides structural necessary conditions of C08. (B1) pooled-buffer escape — in the whole module no value that may share memory with a buffer obtained from a sync.Pool (BufPool, the byte-slice pool) is stored into a field/global/heap object, sent on a channel or handed to a goroutine, and none is returned by a function that also gives the buffer back to the pool (a summary-based alias analysis over go/ssa follows slices, cells, helper calls in both directions — the Get and the Put may each live in a helper, a deferred closure or a deferred named function —, callbacks passed as function-typed parameters (also forwarded, kept in locals or captured variables), release functions returned by a borrow helper and called or deferred by its caller, methods of a module interface with a single implementation, and the modelled library calls). A function literal that stores memory derived from its own parameter into a captured variable is an escape for whoever calls it; fields of a non-escaping local struct variable are value flow, not escapes. A call that receives pooled memory and is neither modelled nor followed gives UNDECIDED. A function that obtains a buffer and returns it without ever giving it back hands it over: its callers are judged as holders. Writing into the buffer and passing it to io.Writer.Write / AEAD Seal/Open is allowed by their no-retain contracts. (B2) package-level state inventory — every package-level variable of the module is (a) never stored to and never written through (elements, map entries, appends, in-place library writes, also through same-module helpers that receive it, and through pointer-receiver methods called on the variable's address: strings.Builder/bytes.Buffer Write*/Reset…, module methods that store into their receiver) outside package initialisation, or (b) a sync.Pool used only through Get/Put (also through helpers that receive its address), or (c) a synchronisation object, or (d) mutated after initialisation but then every access (load, look-up, iteration, update, hand-over to a call) happens while one package-level sync.Mutex/RWMutex of the same package is held (write mode for writes); the guard is inferred, not named: some lock of the package must cover all accesses. The lock held at an access is the must-hold lockset of the lockset engine plus the locks held around the invocation of a callback: a function value whose every use is to be passed to a same-module wrapper runs under the locks the wrapper holds when it calls it (also when the wrapper forwards it to another runner), including a lock the wrapper received as a parameter (*sync.Mutex, *sync.RWMutex, sync.Locker; resolved per call site, RLocker() = read mode); a callback started with go holds nothing. A variable assigned inside a sync.Once.Do callback is accepted when every other access is provably after Do on that Once (else UNDECIDED); further writers still need the lock. A package-level struct that is the only object of its module type is treated field by field the same way (its own mutex fields are candidate guards). The guarded registries found this way are additionally required to be read and updated in one critical section per operation. (B3) byteslicepool.Get hands out only fresh memory or recycled memory that was zeroed over its whole length on every path (must-dataflow; clear(), up/down counted loops in any lowering, zeroing helpers; the recycled value may come from a helper), and Put stores the caller's slice without cutting its length. (B1-release-once) in every function the same pooled object (identified through conversions, single-assignment locals, captured variables, hand-over helpers) is given back at most once on every path: direct Put, deferred Put, Put helpers, deferred function literals and returned release functions all count; VIOLATION when an unconditional release is certain to be followed by another one (a deferred release registered before it, or a dominating earlier release), UNDECIDED when two releases merely may lie on one path. (B2, references) the map/slice/pointer loaded from a guarded variable is followed through results, arguments (also into the targets of function values it is passed to), local and captured variables of same-package functions: every use of the reference anywhere is an access that needs the guard; returning it from an exported function is a violation. (B4) the exported entry points of crypto, crypto/aeskw, crypto/padding, crypto/aescbcaead never write memory reachable from their []byte inputs (elements or spare capacity; the taint engine's write summaries; dst of cipher.AEAD Seal/Open exempt by contract): two calls on separate messages/keys that live in one backing array, or share a key slice, would otherwise change each other's results. (B5) in packages that use a sync.Pool, an exported function that returns a value gives none of its parameters' memory to a pool (directly or through helpers; release summaries of the alias analysis): only a pure release operation — no results, like ByteSlicePool.Put — takes ownership of caller memory; otherwise the caller, who still owns what it passed in, and the pool's next user share it. (B6) process-wide objects of libraries — package-level variables of other packages, logrus.StandardLogger(), log.Default(), slog.Default() — are not written or reconfigured outside package initialisation: no assignment to such a variable or to a field of such an object, no package-level setter of the library's singleton (logrus.SetOutput…, log.SetOutput…, slog.SetDefault), no Set*/Add*/Replace*/Register*/Reset* method on the object or on a library object built on it, also when it was first stored in a field of a module struct (field-based) and is reached through that field later. NOT decided: data-race freedom in general, 'same results when run concurrently' (needs execution), use of a pooled buffer after an early (non-deferred) Put inside the same function; per-object state is covered by C13/C14."
+	r.Assumptions = append(r.Assumptions, "library model table of kitcheck/taint.go; interface calls into the module are covered by the io.Writer / cipher.AEAD contract models", "a call with the ADDRESS of a package-level variable as pointer receiver counts as a write when it is a same-module method that stores into its receiver (followed two levels) or a library method whose name starts with Write/Reset/Set/Add/Grow/Store/Swap/Delete/Clear/Truncate/Read/… (reviewed list in prop_c08.go), as a read for String/Len/Cap/Error/Load/Is/Has/Get/…, otherwise UNDECIDED; value-receiver methods work on a copy", "a package-level variable assigned inside a sync.Once.Do callback is accepted only if every other access is dominated by Do on the same Once (directly, through a same-module function that calls Do on every path, or at every call site of the accessing function); otherwise UNDECIDED", "identities are type-based: a lock is its package-level variable or (type, field); a pool is its variable or (type, field), looked through single-assignment locals", "a module interface with exactly one implementing module type dispatches to that type", "B6: the table of singleton accessors / package-level setters in prop_c08.go and the reading of library methods named Set*/Add*/Replace*/Register*/Reset* as reconfiguring their receiver")
 	r.Rule("C08.B1-pool-escape", "no value derived from a sync.Pool buffer escapes, or is returned by, a function that gives the buffer back", 2)
 	r.Rule("C08.B2-inventory", "package-level variables: read-only after init, Pool via Get/Put, sync object, or every access under one package-level lock", 30)
 	r.Rule("C08.B3-zeroed", "byteslicepool.Get returns zeroed or fresh memory", 1)
@@ -943,6 +943,99 @@ func c08FuncTargets(p *Prog, lk *c08LockCtx, v ssa.Value, depth int) ([]*ssa.Fun
 	return out, len(out) > 0
 }
 
+// c08AddrCallEffect: the address of package-level variable g is passed to call x. 0 = the object is only read,
+// 1 = it is (or may be, by the method's documented purpose) changed, 2 = unknown.
+// Library methods with the object as pointer receiver: classified by the reviewed name lists below; module
+// methods: changed iff the method (or a method it calls on the same receiver, two levels) stores into the receiver.
+func c08AddrCallEffect(p *Prog, x ssa.CallInstruction, g *ssa.Global) int {
+	cc := x.Common()
+	if cc.IsInvoke() {
+		return 2
+	}
+	isRecv := len(cc.Args) > 0 && cc.Args[0] == ssa.Value(g)
+	cal := staticCallee(x)
+	obj := calleeObj(x)
+	if cal != nil && p.funcSet[cal] {
+		for i, a := range cc.Args {
+			if a == ssa.Value(g) && i < len(cal.Params) && c08StoresThrough(p, cal, cal.Params[i], 0) {
+				return 1
+			}
+		}
+		return 0
+	}
+	if obj == nil || !isRecv || obj.Type().(*types.Signature).Recv() == nil {
+		if obj != nil && (extKey(obj) == "encoding/json.Unmarshal" || strings.HasSuffix(obj.Name(), "Unmarshal") || strings.HasPrefix(obj.Name(), "Decode")) {
+			return 1
+		}
+		return 2
+	}
+	if _, ptrRecv := obj.Type().(*types.Signature).Recv().Type().(*types.Pointer); !ptrRecv {
+		return 0 // value receiver: works on a copy
+	}
+	n := obj.Name()
+	for _, pre := range []string{"Write", "Reset", "Set", "Add", "Grow", "Store", "Swap", "Delete", "Clear", "Truncate", "Read", "Unread", "Next", "Push", "Pop", "Remove", "Insert", "Register", "Replace", "Append", "Init", "Move", "CompareAnd", "LoadOr", "LoadAnd", "Seed", "Scan", "Unmarshal", "Decode", "Parse"} {
+		if strings.HasPrefix(n, pre) {
+			return 1
+		}
+	}
+	for _, ro := range []string{"String", "Len", "Cap", "Error", "Bytes", "Load", "Is", "Has", "Get", "Lookup", "Format", "Marshal", "Equal", "Compare", "Available", "Size", "Name", "Unwrap"} {
+		if strings.HasPrefix(n, ro) {
+			return 0
+		}
+	}
+	return 2
+}
+
+// c08StoresThrough: fn stores into the object its parameter pa points to (fields, elements, the object itself),
+// directly or by passing pa on as the receiver / argument of a same-module function that does.
+func c08StoresThrough(p *Prog, fn *ssa.Function, pa *ssa.Parameter, depth int) bool {
+	if depth > 2 {
+		return false
+	}
+	found := false
+	var walk func(addr ssa.Value, d int)
+	walk = func(addr ssa.Value, d int) {
+		if d > 4 || found {
+			return
+		}
+		for _, rr := range refs(addr) {
+			switch y := rr.(type) {
+			case *ssa.Store:
+				if y.Addr == addr {
+					found = true
+				}
+			case *ssa.FieldAddr:
+				walk(y, d+1)
+			case *ssa.IndexAddr:
+				walk(y, d+1)
+			case *ssa.MapUpdate:
+				found = true
+			case ssa.CallInstruction:
+				cc := y.Common()
+				if cal := staticCallee(y); cal != nil && p.funcSet[cal] && !cc.IsInvoke() {
+					for i, a := range cc.Args {
+						if a == addr && i < len(cal.Params) && c08StoresThrough(p, cal, cal.Params[i], depth+1) {
+							found = true
+						}
+					}
+				} else if len(cc.Args) > 0 && cc.Args[0] == addr && !cc.IsInvoke() {
+					if obj := calleeObj(y); obj != nil && obj.Type().(*types.Signature).Recv() != nil {
+						if _, ptr := obj.Type().(*types.Signature).Recv().Type().(*types.Pointer); ptr {
+							for _, pre := range []string{"Write", "Reset", "Set", "Add", "Grow", "Store", "Swap", "Delete", "Clear", "Truncate"} {
+								if strings.HasPrefix(obj.Name(), pre) {
+									found = true
+								}
+							}
+						}
+					}
+				}
+			}
+		}
+	}
+	walk(pa, 0)
+	return found
+}
+
 func c08IsContainerRef(t types.Type) bool {
 	switch t.Underlying().(type) {
 	case *types.Map, *types.Slice, *types.Pointer:
@@ -1527,6 +1620,17 @@ func c08B2(p *Prog, r *Report, t *TaintEngine, e *LockEngine) []GuardSpec {
 						for _, a := range sub {
 							add(a)
 						}
+					case ssa.CallInstruction:
+						// the variable's ADDRESS is the receiver (or an argument) of a call: a pointer-receiver method may change the object
+						switch c08AddrCallEffect(p, x, g) {
+						case 1:
+							add(c08Acc{in: in, fn: fn, write: true, what: "changed through its pointer-receiver method " + callDesc(x)})
+						case 2:
+							add(c08Acc{in: in, fn: fn, what: "used by " + callDesc(x)})
+							unk = append(unk, fmt.Sprintf("the variable's address is handed to %s at %s in %s: whether that changes it is not known", callDesc(x), p.Pos(instrPos(in)), FuncName(p, fn)))
+						default:
+							add(c08Acc{in: in, fn: fn, what: "read by " + callDesc(x)})
+						}
 					default:
 						add(c08Acc{in: in, fn: fn, what: "used"})
 					}
@@ -1555,6 +1659,11 @@ func c08B2(p *Prog, r *Report, t *TaintEngine, e *LockEngine) []GuardSpec {
 			}
 			desc := func(a c08Acc) string {
 				return fmt.Sprintf("%s at %s in %s", a.what, p.Pos(instrPos(a.in)), FuncName(p, a.fn))
+			}
+			if len(writes) == 0 && len(unk) > 0 {
+				sort.Strings(unk)
+				r.Undecide("%s: %s", construct, strings.Join(unk, "; "))
+				continue
 			}
 			if len(writes) == 0 {
 				// a singleton struct (the only object of its type) is package-level state field by field
